@@ -13,7 +13,7 @@ LEVEL = "exploration"
 TECHNIQUE = "deviation-bounded exhaustive enumeration of constructor arguments (those of the released signatures, plus any parameter the class has gained since, over 6 values) x block sizes x ATA transfer rules; buffer lengths recomputed from the CDB by the independent spec decoder and each command handed to both stand-in transports"
 RULE = ("42 classes x offering tables x argument tuples with at most k deviations (k=1 quick, 2 thorough) x block sizes {1,512,520,4096} for "
         "block commands (products above 2^22 bytes skipped) ; ATA PASS-THROUGH 12/16: full product t_length(4) x byte_block x t_type x t_dir x "
-        "data given/omitted x blocksize {0,512,4096} x extra_tl {None,3} x count/features {0,1,2,max8,(max16)}, and write data as mmap (fresh / position at the end / in the middle) and array('B'), each used for two commands in a row; PROTOCOL 0..15 x t_length x byte_block x t_type x t_dir x data given/omitted x extra_tl ; MODE SELECT / PR OUT / EXTENDED COPY "
+        "data given/omitted x blocksize {0,512,4096} x extra_tl {None,3} x count/features {0,1,2,max8,(max16)}, and block sizes that are no plain positive int (numeric text, float, negative, list, None, integer-like, bool) x tl 1..3: refused, or buffers of exactly tl x that many bytes; write data as mmap (fresh / position at the end / in the middle) and array('B'), each used for two commands in a row; PROTOCOL 0..15 x t_length x byte_block x t_type x t_dir x data given/omitted x extra_tl ; MODE SELECT / PR OUT / EXTENDED COPY "
         "with parameter dictionaries of several sizes. Every constructed command is executed on an SG_IO and an iSCSI device (stand-ins), which take "
         "len() of both buffers; the iSCSI task direction/length is compared with the same numbers; afterwards the result is decoded (unmarshall) and both buffers must still be the same objects of the same length; 12 data-in facade methods on both transports answered with a well-formed response and 8 truncated / garbage ones (a length field announcing more than was transferred): every command reaching the target and the command handed back satisfy the same relation; two facades with block sizes 512 / 4096 alive at once (3 creation orders), READ/WRITE(10,12,16) on each in turn. Non-trivial = a deviation or a non-default "
         "block size; distinct = distinct (class, table, tuple, blocksize).")
@@ -236,6 +236,45 @@ def run_payload(name, st, key, kind, tl):
     return out
 
 
+ODD_BLOCKSIZES = {"text": "512", "float": 512.0, "negative": -512, "list": [512], "none": None, "numlike": "NUMLIKE", "bool": True}
+
+
+def run_odd_blocksize(name, st, key, bsname, tl):
+    """a block size that is no plain positive int (numeric text from a command line, a float, None, ...): the request is refused, or
+    the command that comes out has buffers of exactly tl x that many bytes - never something else (e.g. '512' * 2 read as 512512)"""
+    ensure_rigs()
+    bs = ODD_BLOCKSIZES[bsname]
+    if bs == "NUMLIKE":
+        from vf.props.c05 import NumLike
+        bs = NumLike(512)
+    cls = CS.get_class(name)
+    op = CS.get_opcode(st, key)
+    point = dict(CS.baseline(name), tl=tl) if name.startswith(("Read1", "Write1")) else dict(CS.baseline(name))
+    kw = CS.build_kwargs(name, point, blocksize=512)
+    kw["blocksize"] = bs
+    where = "%s(tl=%d, blocksize=%r) via %s.%s" % (name, tl, ODD_BLOCKSIZES[bsname], st, key)
+    try:
+        cmd = cls(op, **kw)
+    except Exception:   # noqa: BLE001 - refused
+        return []
+    try:
+        unit = int(bs)
+    except Exception:   # noqa: BLE001
+        unit = None
+    d = S.decode(name, bytes(cmd.cdb))
+    if name.startswith("Read1"):
+        want_in, want_out = (d["tl"] * unit if unit is not None else None), 0
+    elif name.startswith("Write1"):
+        want_in, want_out = 0, len(kw.get("data", b""))
+    else:
+        return []
+    out = []
+    if want_in is None or unit <= 0 or len(cmd.datain) != want_in or len(cmd.dataout) != want_out:
+        out.append(("odd_blocksize/%s" % name, "%s: accepted; the CDB announces %d block(s), data-in holds %d bytes, data-out %d"
+                    % (where, d["tl"], len(cmd.datain), len(cmd.dataout))))
+    return out
+
+
 PAYLOAD_KINDS = ("mmap", "mmapend", "mmapmid", "arrayB")
 NEW_PARAM_VALUES = (0, 1, 12, 255, 512, 4096)
 
@@ -281,6 +320,8 @@ def run_case(case, obs=None):
         return run_new_param(*case[1:])
     if case[0] == "payload":
         return run_payload(*case[1:])
+    if case[0] == "odd_blocksize":
+        return run_odd_blocksize(*case[1:])
     ensure_rigs()
     name, st, key, point, bs, variant = case
     where = "%s(%r, blocksize=%r, variant=%r) via %s.%s" % (name, point, bs, variant, st, key)
@@ -506,6 +547,10 @@ def run_partition(part, tier, seed):
         for kind in PAYLOAD_KINDS:
             for tl in (1, 2):
                 do(["payload", name, st, key, kind, tl], True)
+    if name in ("Read10", "Read12", "Read16", "Write10", "Write12", "Write16"):
+        for bsname in ODD_BLOCKSIZES:
+            for tl in (1, 2, 3):
+                do(["odd_blocksize", name, st, key, bsname, tl], True)
     for param in new_parameters(name):
         for value in NEW_PARAM_VALUES:
             do(["new_param", name, st, key, param, value], True)
